@@ -632,6 +632,29 @@ func c10Lemmas(c *Ctx, p *Program) {
 			c.bad("C10.lemma", "ascon.blockSize ∈ {8,16}", strings.Join(vals, ", "), p.fnPos(f))
 		}
 	}
+	// ascon: Open rejects a ciphertext shorter than the tag (the hand proofs for Open / sliceForAppend rely on it)
+	for _, n := range []int64{1, 15} {
+		c.guard(p, "C10.lemma", fmt.Sprintf("a ciphertext of %d bytes is rejected", n), p.Func("cipher/ascon", "Cipher", "Open"),
+			GuardSpec{Args: map[string]lat{"ciphertext": latSliceLen(n), "nonce": latSliceLen(16)}})
+	}
+	// hpke: the identifiers read from a serialized context are validated before the accessors that
+	// panic on unassigned identifiers are called
+	{
+		f := p.Func("hpke", "", "unmarshalContext")
+		isCall := func(names ...string) func(ssa.Instruction) bool {
+			set := map[string]bool{}
+			for _, n := range names {
+				set[n] = true
+			}
+			return func(in ssa.Instruction) bool {
+				ci, ok := in.(ssa.CallInstruction)
+				return ok && set[normName(p.staticCalleeName(ci.Common()))]
+			}
+		}
+		c.orderRule(p, "C10.panic", "the parsed suite is validated before its size accessors (which panic on unassigned identifiers) are called", f,
+			"call of Suite.isValid", isCall("(hpke.Suite).isValid"),
+			"call of KDF.ExtractSize / AEAD.KeySize / AEAD.NonceSize", isCall("(hpke.KDF).ExtractSize", "(hpke.AEAD).KeySize", "(hpke.AEAD).NonceSize"))
+	}
 	// sidh parameter tables
 	for _, pk := range []string{"p434", "p503", "p751"} {
 		e, info := p.varInit("dh/sidh/internal/"+pk, "params")
